@@ -13,6 +13,8 @@ theorem run_nil (d : Dialect) (s : St) : run d s [] = s := rfl
     and nothing else in the cell forces the writer to quote it -/
 def Readable (d : Dialect) (c : Cell) : Prop := d.crEndsRecord = true → c.any special = false → '\r' ∉ c
 
+instance (d : Dialect) (c : Cell) : Decidable (Readable d c) := by unfold Readable; infer_instance
+
 /-- the reader is at the start of a field with nothing accumulated -/
 def Fresh (s : St) : Prop := s.cell = [] ∧ (s.ps = .startField ∨ s.ps = .startRecord)
 
